@@ -2,6 +2,7 @@ import GenReal.Geodesy
 import Mathlib.Tactic
 import Mathlib.Analysis.SpecialFunctions.Trigonometric.Complex
 import Mathlib.Analysis.SpecialFunctions.Complex.Arg
+import Mathlib.Analysis.SpecialFunctions.Trigonometric.Bounds
 
 /-!
 # C07 — coordinate conversions (`conv_*`)
@@ -23,7 +24,6 @@ private theorem nf_geocentric2cart (r lat lon : ℝ) :
          r * Real.cos (lat * (Real.pi / 180)) * Real.sin (lon * (Real.pi / 180)),
          r * Real.sin (lat * (Real.pi / 180))) := by
   simp only [geocentric2cart]
-  <;> ring_nf
 
 private theorem nf_cart2geocentric (x y z : ℝ) :
     cart2geocentric x y z
@@ -31,12 +31,10 @@ private theorem nf_cart2geocentric (x y z : ℝ) :
          Real.arcsin (z / Real.sqrt (x ^ 2 + y ^ 2 + z ^ 2)) * (180 / Real.pi),
          Complex.arg ⟨x, y⟩ * (180 / Real.pi)) := by
   simp only [cart2geocentric]
-  <;> ring_nf
 
 private theorem nf_rejects (x y z : ℝ) :
     cart2geocentric_rejects x y z ↔ Real.sqrt (x ^ 2 + y ^ 2 + z ^ 2) = 0 := by
   simp only [cart2geocentric_rejects]
-  <;> ring_nf
 
 private theorem nf_geodetic2cart (h lat lon a e : ℝ) :
     geodetic2cart h lat lon a e
@@ -47,7 +45,6 @@ private theorem nf_geodetic2cart (h lat lon a e : ℝ) :
          (a / Real.sqrt (1 - e ^ 2 * Real.sin (lat * (Real.pi / 180)) ^ 2) * (1 - e ^ 2) + h)
             * Real.sin (lat * (Real.pi / 180))) := by
   simp only [geodetic2cart, sind, cosd, mul_one]
-  <;> ring_nf
 
 private theorem nf_body (x y z a e e2 N h Bp B : ℝ) :
     cart2geodetic_loop1_body x y z a e e2 (N, h, Bp, B)
@@ -59,7 +56,6 @@ private theorem nf_body (x y z a e e2 N h Bp B : ℝ) :
               (a / Real.sqrt (1 - e2 * Real.sin B ^ 2) +
                 (Real.sqrt (x * x + y * y) / Real.cos B - a / Real.sqrt (1 - e2 * Real.sin B ^ 2))))))) := by
   simp only [cart2geodetic_loop1_body, pow_one]
-  <;> ring_nf
 
 private theorem nf_r_geodetic (a e lat : ℝ) :
     ellipsoid_r_geodetic a e lat
@@ -68,7 +64,6 @@ private theorem nf_r_geodetic (a e lat : ℝ) :
                 + Real.cos (lat * (Real.pi / 180)) ^ 2)
             / Real.sqrt (1 - e ^ 2 * Real.sin (lat * (Real.pi / 180)) ^ 2) := by
   simp only [ellipsoid_r_geodetic, sind, cosd, one_mul]
-  <;> ring_nf
 
 private theorem nf_r_geocentric (a e lat : ℝ) :
     ellipsoid_r_geocentric a e lat
@@ -77,7 +72,6 @@ private theorem nf_r_geocentric (a e lat : ℝ) :
             / Real.sqrt ((1 - e ^ 2) * Real.cos (lat * (Real.pi / 180)) ^ 2
                 + Real.sin (lat * (Real.pi / 180)) ^ 2) := by
   simp only [ellipsoid_r_geocentric, sind, cosd, one_mul]
-  <;> ring_nf
 
 theorem conv_table :
     (0 < ellipsoidmodels_SphericalEarth.1 ∧ 0 ≤ ellipsoidmodels_SphericalEarth.2 ∧ ellipsoidmodels_SphericalEarth.2 < 1) ∧
@@ -586,3 +580,228 @@ theorem conv_geodetic_is_fixed_point_den (h lat lon a e N0 h0 B0 : ℝ) (ha : 0 
     have e1 : 1 - e ^ 2 * n / (n + h) = (n * (1 - e ^ 2) + h) / (n + h) := by field_simp; ring
     rw [e1]
     exact (div_pos hD hM).ne'
+
+/-! ## second batch: the loop of `cart2geodetic` -/
+
+private theorem nf_cond (x y z a e e2 : ℝ) (s : ℝ × ℝ × ℝ × ℝ) :
+    cart2geodetic_loop1_cond_any x y z a e e2 s ↔ |s.2.2.1 - s.2.2.2| > 1 / 1000000000000 := by
+  simp only [cart2geodetic_loop1_cond_any]
+
+/-- the loop is always entered -/
+theorem conv_loop_entered (x y z a e B0 : ℝ) : cart2geodetic_loop1_entered x y z a e (e ^ 2) (B0 + 1) B0 := by
+  simp only [cart2geodetic_loop1_entered, nf_cond]
+  have : B0 + 1 - B0 = 1 := by ring
+  rw [this]
+  norm_num
+
+/-- the longitude returned by cart2geodetic does not depend on the branch / the loop -/
+theorem conv_cart2geodetic_lon (x y z a e : ℝ) :
+    (cart2geodetic x y z a e).2.2 = Complex.arg ⟨x, y⟩ * (180 / Real.pi) := by
+  by_cases h : e ^ 2 = 0
+  · simp only [cart2geodetic, h, if_true, nf_cart2geocentric]
+  · simp only [cart2geodetic, h, if_false]
+
+/-- the general branch returns the exit state's height and latitude -/
+private theorem nf_cart2geodetic_general (x y z a e : ℝ) (he : e ≠ 0) :
+    cart2geodetic x y z a e
+      = ((whileLoop (cart2geodetic_loop1_cond_any x y z a e (e ^ 2)) (cart2geodetic_loop1_body x y z a e (e ^ 2))
+            (0, 0, Complex.arg ⟨Real.sqrt (x * x + y * y), z⟩ + 1, Complex.arg ⟨Real.sqrt (x * x + y * y), z⟩)).2.1,
+         (whileLoop (cart2geodetic_loop1_cond_any x y z a e (e ^ 2)) (cart2geodetic_loop1_body x y z a e (e ^ 2))
+            (0, 0, Complex.arg ⟨Real.sqrt (x * x + y * y), z⟩ + 1, Complex.arg ⟨Real.sqrt (x * x + y * y), z⟩)).2.2.1
+           * (180 / Real.pi),
+         Complex.arg ⟨x, y⟩ * (180 / Real.pi)) := by
+  simp only [cart2geodetic, if_neg (pow_ne_zero 2 he)]
+
+theorem conv_composite_roundtrip (h lat lon a e : ℝ)
+    (h0 : ¬ cart2geocentric_rejects (geodetic2cart h lat lon a e).1 (geodetic2cart h lat lon a e).2.1
+            (geodetic2cart h lat lon a e).2.2) :
+    let p := geodetic2cart h lat lon a e
+    let q := geodetic2geocentric h lat lon a e
+    geocentric2geodetic q.1 q.2.1 q.2.2 a e = cart2geodetic p.1 p.2.1 p.2.2 a e := by
+  intro p q
+  have h1 := conv_cart_roundtrip p.1 p.2.1 p.2.2 h0
+  simp only [] at h1
+  have hq : q = cart2geocentric p.1 p.2.1 p.2.2 := (conv_composed_routes h lat lon 0 a e).1
+  rw [(conv_composed_routes 0 q.2.1 q.2.2 q.1 a e).2, hq, h1]
+
+/-- `conv_aux_N_facts` for `0 ≤ e` (the sphere included) -/
+theorem conv_aux_N_facts' (a e φ h : ℝ) (ha : 0 < a) (he0 : 0 ≤ e) (he1 : e < 1)
+    (hh : -(a * (1 - e ^ 2)) < h) :
+    0 < a / Real.sqrt (1 - e ^ 2 * Real.sin φ ^ 2) ∧
+    0 < a / Real.sqrt (1 - e ^ 2 * Real.sin φ ^ 2) * (1 - e ^ 2) + h ∧
+    0 < a / Real.sqrt (1 - e ^ 2 * Real.sin φ ^ 2) + h := by
+  have hsc := Real.sin_sq_add_cos_sq φ
+  have he2 : 0 < 1 - e ^ 2 := by nlinarith
+  have he2' : 0 ≤ e ^ 2 := by positivity
+  have hS1 : Real.sin φ ^ 2 ≤ 1 := by nlinarith [sq_nonneg (Real.cos φ)]
+  have hrad : 0 < 1 - e ^ 2 * Real.sin φ ^ 2 := by nlinarith [sq_nonneg (Real.sin φ)]
+  have hrad1 : 1 - e ^ 2 * Real.sin φ ^ 2 ≤ 1 := by nlinarith [sq_nonneg (Real.sin φ)]
+  have hW : 0 < Real.sqrt (1 - e ^ 2 * Real.sin φ ^ 2) := Real.sqrt_pos.mpr hrad
+  have hW1 : Real.sqrt (1 - e ^ 2 * Real.sin φ ^ 2) ≤ 1 := by
+    have := Real.sqrt_le_sqrt hrad1
+    rwa [Real.sqrt_one] at this
+  have hNa : a ≤ a / Real.sqrt (1 - e ^ 2 * Real.sin φ ^ 2) := by
+    rw [le_div_iff₀ hW]; nlinarith
+  generalize a / Real.sqrt (1 - e ^ 2 * Real.sin φ ^ 2) = n at *
+  have hn0 : 0 < n := lt_of_lt_of_le ha hNa
+  have h1 : 0 < n * (1 - e ^ 2) + h := by nlinarith
+  refine ⟨hn0, h1, ?_⟩
+  nlinarith [mul_nonneg hn0.le he2']
+
+/-- `atan2` recovers a longitude in (−180, 180] from a positive multiple of (cos, sin) -/
+theorem conv_aux_arg_polar_deg (ρ lon : ℝ) (hρ : 0 < ρ) (hlon : -180 < lon ∧ lon ≤ 180) :
+    Complex.arg ⟨ρ * Real.cos (lon * (Real.pi / 180)), ρ * Real.sin (lon * (Real.pi / 180))⟩
+      * (180 / Real.pi) = lon := by
+  have hp := Real.pi_pos
+  have h := conv_aux_arg_polar ρ (lon * (Real.pi / 180)) hρ
+  have hf : ⌊(Real.pi - lon * (Real.pi / 180)) / (2 * Real.pi)⌋ = 0 := by
+    rw [Int.floor_eq_zero_iff]
+    constructor
+    · apply div_nonneg _ (by positivity)
+      nlinarith [hlon.2]
+    · rw [div_lt_one (by positivity)]
+      nlinarith [hlon.1]
+  rw [hf, Int.cast_zero, mul_zero, sub_eq_zero] at h
+  rw [h, conv_aux_deg]
+
+theorem conv_geodetic_lon_recovery (h lat lon a e : ℝ) (ha : 0 < a) (he0 : 0 ≤ e) (he1 : e < 1)
+    (hlat : |lat| < 90) (hh : -(a * (1 - e ^ 2)) < h) (hlon : -180 < lon ∧ lon ≤ 180) :
+    let p := geodetic2cart h lat lon a e
+    (cart2geodetic p.1 p.2.1 p.2.2 a e).2.2 = lon := by
+  intro p
+  obtain ⟨hl1, hl2⟩ := conv_aux_latrange lat hlat
+  have hC : 0 < Real.cos (lat * (Real.pi / 180)) := Real.cos_pos_of_mem_Ioo ⟨hl1, hl2⟩
+  obtain ⟨_, _, hM⟩ := conv_aux_N_facts' a e (lat * (Real.pi / 180)) h ha he0 he1 hh
+  rw [conv_cart2geodetic_lon]
+  simp only [p, nf_geodetic2cart]
+  exact conv_aux_arg_polar_deg _ lon (mul_pos hM hC) hlon
+
+/-- algebra of one step of the latitude iteration from any `B` with `cos B > 0` -/
+theorem conv_aux_step_alg (ρ z n e2 B : ℝ) (hρ : 0 < ρ) (hB : 0 < Real.cos B)
+    (hden : 1 - e2 * n / (n + (ρ / Real.cos B - n)) ≠ 0) :
+    (n + (ρ / Real.cos B - n)) * Real.cos B = ρ ∧
+    (n * (1 - e2) + (ρ / Real.cos B - n)) * Real.sin B
+      = z - (n * (1 - e2) + (ρ / Real.cos B - n))
+          * Real.sin (Real.arctan (z / ρ * (1 / (1 - e2 * n / (n + (ρ / Real.cos B - n))))) - B)
+          / Real.cos (Real.arctan (z / ρ * (1 / (1 - e2 * n / (n + (ρ / Real.cos B - n)))))) := by
+  have hM : n + (ρ / Real.cos B - n) = ρ / Real.cos B := by ring
+  rw [hM] at hden ⊢
+  generalize hB' : Real.arctan (z / ρ * (1 / (1 - e2 * n / (ρ / Real.cos B)))) = B'
+  have hc' : 0 < Real.cos B' := by rw [← hB']; exact Real.cos_arctan_pos _
+  have ht : Real.tan B' = z / ρ * (1 / (1 - e2 * n / (ρ / Real.cos B))) := by
+    rw [← hB', Real.tan_arctan]
+  have hs' : Real.sin B' = Real.tan B' * Real.cos B' := (Real.tan_mul_cos hc'.ne').symm
+  rw [ht] at hs'
+  rw [Real.sin_sub, hs']
+  generalize Real.cos B = c at *
+  generalize Real.sin B = s at *
+  generalize Real.cos B' = c' at *
+  have hd' : ρ - n * e2 * c ≠ 0 := by
+    intro h0; apply hden; field_simp; linarith
+  have e1 : 1 - e2 * n / (ρ / c) = (ρ - n * e2 * c) / ρ := by field_simp
+  rw [e1]
+  constructor
+  · field_simp
+  · field_simp; ring
+
+/-- one pass of the loop body from ANY latitude B with cos B > 0: the returned (h, B) reproduce x and y exactly
+and z up to an explicit residual that vanishes at a fixed point -/
+theorem conv_step_inverse (x y z a e N h Bp B : ℝ) (hxy : x ≠ 0 ∨ y ≠ 0) (hB : 0 < Real.cos B)
+    (hden : 1 - e ^ 2 * (cart2geodetic_loop1_body x y z a e (e ^ 2) (N, h, Bp, B)).1
+              / ((cart2geodetic_loop1_body x y z a e (e ^ 2) (N, h, Bp, B)).1
+                 + (cart2geodetic_loop1_body x y z a e (e ^ 2) (N, h, Bp, B)).2.1) ≠ 0) :
+    let s := cart2geodetic_loop1_body x y z a e (e ^ 2) (N, h, Bp, B)
+    geodetic2cart s.2.1 (s.2.2.1 * (180 / Real.pi)) (Complex.arg ⟨x, y⟩ * (180 / Real.pi)) a e
+      = (x, y, z - (s.1 * (1 - e ^ 2) + s.2.1) * Real.sin (s.2.2.2 - B) / Real.cos s.2.2.2) := by
+  intro s
+  have hρ := conv_aux_rho_pos x y hxy
+  simp only [nf_body] at hden
+  obtain ⟨h1, h2⟩ := conv_aux_step_alg _ z _ _ B hρ hB hden
+  simp only [s, nf_body, nf_geodetic2cart, conv_aux_deg']
+  rw [h1, h2, conv_aux_sqrt_mul_self, conv_aux_polar_x, conv_aux_polar_y]
+
+theorem conv_step_residual_bound (x y z a e N h Bp B : ℝ) (hxy : x ≠ 0 ∨ y ≠ 0) (hB : 0 < Real.cos B)
+    (hden : 1 - e ^ 2 * (cart2geodetic_loop1_body x y z a e (e ^ 2) (N, h, Bp, B)).1
+              / ((cart2geodetic_loop1_body x y z a e (e ^ 2) (N, h, Bp, B)).1
+                 + (cart2geodetic_loop1_body x y z a e (e ^ 2) (N, h, Bp, B)).2.1) ≠ 0) :
+    let s := cart2geodetic_loop1_body x y z a e (e ^ 2) (N, h, Bp, B)
+    let p := geodetic2cart s.2.1 (s.2.2.1 * (180 / Real.pi)) (Complex.arg ⟨x, y⟩ * (180 / Real.pi)) a e
+    p.1 = x ∧ p.2.1 = y ∧
+      |z - p.2.2| * Real.cos s.2.2.2 ≤ |s.1 * (1 - e ^ 2) + s.2.1| * |s.2.2.1 - s.2.2.2| := by
+  intro s p
+  have hp : p = _ := conv_step_inverse x y z a e N h Bp B hxy hB hden
+  have hB1 : s.2.2.1 = B := by simp only [s, nf_body]
+  have hc : 0 < Real.cos s.2.2.2 := by
+    simp only [s, nf_body]; exact Real.cos_arctan_pos _
+  rw [hp]
+  refine ⟨rfl, rfl, ?_⟩
+  simp only []
+  rw [hB1, sub_sub_cancel, abs_div, abs_of_pos hc, div_mul_cancel₀ _ hc.ne', abs_mul, abs_sub_comm B]
+  exact mul_le_mul_of_nonneg_left Real.abs_sin_le_abs (abs_nonneg _)
+
+/-- every state produced by the loop body carries an `arctan` as next latitude, so its cosine is positive -/
+theorem conv_aux_body_cos_pos (x y z a e e2 : ℝ) (u : ℝ × ℝ × ℝ × ℝ) :
+    0 < Real.cos (cart2geodetic_loop1_body x y z a e e2 u).2.2.2 := by
+  obtain ⟨N, h, Bp, B⟩ := u
+  rw [nf_body]
+  exact Real.cos_arctan_pos _
+
+/-- the start latitude `atan2 z ρ` with `ρ > 0` has positive cosine -/
+theorem conv_aux_start_cos_pos (ρ z : ℝ) (hρ : 0 < ρ) : 0 < Real.cos (Complex.arg ⟨ρ, z⟩) := by
+  have h : |Complex.arg ⟨ρ, z⟩| < Real.pi / 2 :=
+    Complex.abs_arg_lt_pi_div_two_iff.mpr (Or.inl hρ)
+  obtain ⟨h1, h2⟩ := abs_lt.mp h
+  exact Real.cos_pos_of_mem_Ioo ⟨h1, h2⟩
+
+/-- the whole function: if the loop exits, the returned (h, lat, lon) reproduce x, y exactly and z up to the
+residual of the last step; the exit state passes the stop test -/
+theorem conv_cart2geodetic_exit_inverse (x y z a e : ℝ) (he : e ≠ 0) (hxy : x ≠ 0 ∨ y ≠ 0)
+    (hex : ∃ n : ℕ, ¬ cart2geodetic_loop1_cond_any x y z a e (e ^ 2)
+      ((cart2geodetic_loop1_body x y z a e (e ^ 2))^[n]
+        (0, 0, Complex.arg ⟨Real.sqrt (x * x + y * y), z⟩ + 1, Complex.arg ⟨Real.sqrt (x * x + y * y), z⟩)))
+    (hden : let s := whileLoop (cart2geodetic_loop1_cond_any x y z a e (e ^ 2)) (cart2geodetic_loop1_body x y z a e (e ^ 2))
+              (0, 0, Complex.arg ⟨Real.sqrt (x * x + y * y), z⟩ + 1, Complex.arg ⟨Real.sqrt (x * x + y * y), z⟩)
+            1 - e ^ 2 * s.1 / (s.1 + s.2.1) ≠ 0) :
+    let s := whileLoop (cart2geodetic_loop1_cond_any x y z a e (e ^ 2)) (cart2geodetic_loop1_body x y z a e (e ^ 2))
+      (0, 0, Complex.arg ⟨Real.sqrt (x * x + y * y), z⟩ + 1, Complex.arg ⟨Real.sqrt (x * x + y * y), z⟩)
+    let g := cart2geodetic x y z a e
+    let p := geodetic2cart g.1 g.2.1 g.2.2 a e
+    g = (s.2.1, s.2.2.1 * (180 / Real.pi), Complex.arg ⟨x, y⟩ * (180 / Real.pi))
+    ∧ p.1 = x ∧ p.2.1 = y
+    ∧ |z - p.2.2| * Real.cos s.2.2.2 ≤ |s.1 * (1 - e ^ 2) + s.2.1| * |s.2.2.1 - s.2.2.2|
+    ∧ ¬ cart2geodetic_loop1_cond_any x y z a e (e ^ 2) s := by
+  intro s g p
+  have hg : g = (s.2.1, s.2.2.1 * (180 / Real.pi), Complex.arg ⟨x, y⟩ * (180 / Real.pi)) :=
+    nf_cart2geodetic_general x y z a e he
+  have hρ := conv_aux_rho_pos x y hxy
+  obtain ⟨hstop, n, hsn, hbefore⟩ := conv_loop_exit _ _ _ hex
+  -- the loop is entered, so at least one pass was made
+  have hent := conv_loop_entered x y z a e (Complex.arg ⟨Real.sqrt (x * x + y * y), z⟩)
+  simp only [cart2geodetic_loop1_entered] at hent
+  obtain ⟨k, rfl⟩ : ∃ k, n = k + 1 := by
+    cases n with
+    | zero => exact absurd hent (by rw [Function.iterate_zero, id] at hsn; rw [← hsn]; exact hstop)
+    | succ k => exact ⟨k, rfl⟩
+  rw [Function.iterate_succ_apply'] at hsn
+  -- the state before the last pass has a latitude with positive cosine
+  have hcos : 0 < Real.cos ((cart2geodetic_loop1_body x y z a e (e ^ 2))^[k]
+      (0, 0, Complex.arg ⟨Real.sqrt (x * x + y * y), z⟩ + 1,
+        Complex.arg ⟨Real.sqrt (x * x + y * y), z⟩)).2.2.2 := by
+    cases k with
+    | zero => rw [Function.iterate_zero, id]; exact conv_aux_start_cos_pos _ z hρ
+    | succ j => rw [Function.iterate_succ_apply']; exact conv_aux_body_cos_pos _ _ _ _ _ _ _
+  generalize (cart2geodetic_loop1_body x y z a e (e ^ 2))^[k]
+      (0, 0, Complex.arg ⟨Real.sqrt (x * x + y * y), z⟩ + 1,
+        Complex.arg ⟨Real.sqrt (x * x + y * y), z⟩) = t at hsn hcos
+  obtain ⟨N, h, Bp, B⟩ := t
+  have hs : s = cart2geodetic_loop1_body x y z a e (e ^ 2) (N, h, Bp, B) := hsn
+  simp only [] at hden hcos
+  have hden' : 1 - e ^ 2 * s.1 / (s.1 + s.2.1) ≠ 0 := hden
+  rw [hs] at hden'
+  have hb := conv_step_residual_bound x y z a e N h Bp B hxy hcos hden'
+  simp only [] at hb
+  rw [← hs] at hb
+  have hp : p = geodetic2cart s.2.1 (s.2.2.1 * (180 / Real.pi)) (Complex.arg ⟨x, y⟩ * (180 / Real.pi)) a e := by
+    simp only [p, hg]
+  rw [hp]
+  exact ⟨hg, hb.1, hb.2.1, hb.2.2, hstop⟩
